@@ -11,7 +11,7 @@ From LP Require Import Scalar ScalarProofs UPoly RefAlg AlgNum.
 Set Warnings "-notation-overridden,-ambiguous-paths".
 From mathcomp Require Import all_ssreflect all_algebra all_real_closed.
 From mathcomp Require Import ssrZ.
-From LP Require Import AlgNumProofs AlgNumRootProofs.
+From LP Require Import AlgNumProofs AlgNumRootProofs AlgNumGcd.
 Set Warnings "notation-overridden,ambiguous-paths".
 Import GRing.Theory Num.Theory Num.Def Order.TTheory.
 Local Open Scope ring_scope.
@@ -205,6 +205,28 @@ Theorem C07_cmp_equal_branch_cond : forall (R : rcfType) (x y : anum) (p q g : U
 Proof. exact cmp_gcd_branch_sound. Qed.
 Print Assumptions C07_cmp_equal_branch_cond.
 
+(* ---- 7'. the same WITHOUT the premise (FULL), for the model in which the gcd is computed by the reference
+        an_ref_gcd p q = ppp (UPoly.pgcd p q): property C03 proved that UPoly.pgcd divides both operands
+        (C03_pgcd_divides_both), hence vanishes only at common roots, and so does its primitive part.  libpoly's own
+        lp_upolynomial_gcd is tied to this reference by the C03 correspondence, and C07's correspondence compares the
+        operands of lp_algebraic_number_cmp after the call EXACTLY with this instantiated model. *)
+Theorem C07_cmp_full : forall (R : rcfType) fuel (x y : anum) (c : Z) (x' y' : anum) (v w : R),
+  Den x v -> Den y w -> an_cmp fuel an_ref_gcd x y = Some (c, x', y') ->
+  [/\ ZR (Z.sgn c) = sgr (v - w), Den x' v & Den y' w].
+Proof. exact cmp_full. Qed.
+Print Assumptions C07_cmp_full.
+
+Theorem C07_cmp_equal_branch_full : forall (R : rcfType) (x y : anum) (p q : UPoly.poly) (v w : R),
+  let g := an_ref_gcd p q in
+  an_f x = Some p -> an_f y = Some q -> Den x v -> Den y w ->
+  dyR (an_a x) = dyR (an_a y) :> R -> dyR (an_b x) = dyR (an_b y) :> R ->
+  Z.ltb (an_psgn_dy g (an_a x) * an_psgn_dy g (an_b x)) 0 ->
+  [/\ v = w,
+      Den (an_reduce_polynomial x g (an_psgn_dy g (an_a x)) (an_psgn_dy g (an_b x))) v &
+      Den (an_reduce_polynomial y g (an_psgn_dy g (an_a x)) (an_psgn_dy g (an_b x))) w].
+Proof. exact cmp_equal_branch_full. Qed.
+Print Assumptions C07_cmp_equal_branch_full.
+
 (* the end game of cmp: once the intervals are separated, comparing the lower ends (with the open/closed tie-breaks)
    gives the sign of v - w  (FULL) *)
 Theorem C07_cmp_final : forall (R : rcfType) (x y : anum) (v w : R),
@@ -250,6 +272,6 @@ Example C07_example_root_approx :   (* floor of cbrt(3/2) at precision 5 is 1; t
 Proof. reflexivity. Qed.
 (* equal numbers in different representations compare equal: (2x - 1, ]0,1[) against the point 1/2 *)
 Example C07_example_cmp_equal :
-  an_cmp 10 (fun p q => ppp (pgcd p q)) an_half_example (an_point (mkDy 1%ZZ (N.of_nat 1)))
+  an_cmp 10 an_ref_gcd an_half_example (an_point (mkDy 1%ZZ (N.of_nat 1)))
   = Some (Z0, an_point (mkDy 1%ZZ (N.of_nat 1)), an_point (mkDy 1%ZZ (N.of_nat 1))).
 Proof. reflexivity. Qed.
